@@ -412,3 +412,25 @@ Example partial_instance :
   wf_sel crates sel_gvariant_repaired = true /\
   match resolve_sel crates sel_gvariant_repaired with Some St => negb (known_class St) && (7 <=? length (units crates St)) | None => false end = true.
 Proof. split; vm_compute; reflexivity. Qed.
+
+(* the mechanism of the first witness, edge by edge: the target build of zvariant forwards `gvariant` to the proc-macro
+   crate zvariant_derive, which exists only as a host unit; from there it reaches the HOST build of zvariant_utils; the
+   host build of zvariant (a dependency of zbus_macros) is never asked for `gvariant` *)
+Definition gv := B "gvariant".
+Definition mechanism_edges : list (fact * fact) :=
+  [ (FV (B "zvariant") KT (FvFeat gv), FV (B "zvariant") KT (FvDepFeat (B "zvariant_derive") gv false));
+    (FV (B "zvariant") KT (FvDepFeat (B "zvariant_derive") gv false), FV (B "zvariant_derive") KH (FvFeat gv));
+    (FV (B "zvariant_derive") KH (FvFeat gv), FV (B "zvariant_derive") KH (FvDepFeat (B "zvariant_utils") gv false));
+    (FV (B "zvariant_derive") KH (FvDepFeat (B "zvariant_utils") gv false), FV (B "zvariant_utils") KH (FvFeat gv));
+    (FP (B "zbus") KT, FP (B "zbus_macros") KH);
+    (FP (B "zbus_macros") KH, FP (B "zvariant") KH) ].
+Definition mechanism_check : bool :=
+  forallb (fun e => mem (snd e) (psuccs crates (fst e))) mechanism_edges &&
+  match resolve_sel crates sel_gvariant with
+  | Some St => mem (FV (B "zvariant") KT (FvFeat gv)) St && mem (FP (B "zbus") KT) St
+               && mem (FV (B "zvariant_utils") KH (FvFeat gv)) St && mem (FP (B "zvariant") KH) St
+               && negb (mem (FV (B "zvariant") KH (FvFeat gv)) St)
+  | None => false
+  end.
+Lemma gvariant_mechanism : mechanism_check = true.
+Proof. vm_compute. reflexivity. Qed.
